@@ -467,7 +467,7 @@ impl<'a, T: Transformation + ?Sized> Iterator for OneIter<'a, T> {
     }
 
     fn nth(&mut self, n: usize) -> Option<Self::Item> {
-        if self.next.0 + n >= self.limit.0 {
+        if n >= self.limit.0 - self.next.0 {
             self.next = self.limit;
             return None;
         }
